@@ -152,7 +152,7 @@ Record winv (l : N) (sigma hub : list event) (w : watcher) : Prop := {
                           delivered w = w_catch w ++ fltE (w_filter w) (w_P w) taken;
   wi_nogap : w_gap w = false -> is_prefix (w_in w) (skipn (w_base w) hub);
   wi_live : w_reg w = true -> w_dropped w = false -> w_in w = skipn (w_base w) hub;
-  wi_drop : w_dropped w = true -> (0 < w_delpend w)%nat \/ w_reg w = false;
+  wi_drop : w_dropped w = true -> w_reg w = false;
   wi_unreg : w_reg w = false -> c_closed (w_sub w) = true;
   wi_reg : w_reg w = true -> c_closed (w_sub w) = false;
   wi_read : forall ret, w_phase w = PhRead ret ->
@@ -226,7 +226,7 @@ Qed.
 
 Ltac wsimp :=
   cbn [w_set_phase w_set_ctx w_set_hub w_set_pipe w_set_client start_proc
-       w_base w_sub w_inR w_gap w_reg w_dropped w_delpend w_phase w_S w_P w_catch w_filter w_snap
+       w_base w_sub w_inR w_gap w_reg w_dropped w_phase w_S w_P w_catch w_filter w_snap
        w_gotR w_out w_hold w_ctx w_ctxdone w_seen_close].
 Ltac wunf := unfold delivered, hold_list, prerun, accepted in *; unfold w_in, w_got in *.
 
@@ -254,16 +254,16 @@ Proof.
       * intros Hp. destruct (Hpre Hp) as [H1 [H2 [H3 [H4 [H5 H6]]]]]. repeat split; try assumption.
         rewrite frev_rev_append, c_buf_send, concat_app. cbn [concat]. rewrite app_nil_r. rewrite H6. reflexivity.
       * exact Hacc.
-    + (* dropped *)
-      wunf. constructor; wunf; wsimp.
+    + (* dropped and deleted before the next item *)
+      wunf. constructor; wunf; wsimp; rewrite ?c_buf_close.
       * exact Hb'.
       * exact Hsorted.
       * exact Hpipe.
       * intros Hg. rewrite Hsk. apply is_prefix_app_r. apply Hnogap. exact Hg.
-      * intros _ Hd. discriminate.
-      * intros _. left. lia.
       * intros Hr; discriminate.
-      * intros _. apply Hreg. reflexivity.
+      * intros _. reflexivity.
+      * intros _. reflexivity.
+      * intros Hr; discriminate.
       * exact Hread.
       * exact Hpre.
       * exact Hacc.
@@ -281,8 +281,8 @@ Proof.
     + exact Hacc.
 Qed.
 
-Lemma winv_delete l sigma hub w dp cd :
-  winv l sigma hub w -> winv l sigma hub (delete_watcher w dp cd).
+Lemma winv_delete l sigma hub w cd :
+  winv l sigma hub w -> winv l sigma hub (delete_watcher w cd).
 Proof.
   intros [Hbase Hsorted Hpipe Hnogap Hlive Hdrop Hunreg Hreg Hread Hpre Hacc].
   unfold delete_watcher. destruct (w_reg w) eqn:Ereg.
@@ -292,7 +292,7 @@ Proof.
     + exact Hpipe.
     + exact Hnogap.
     + intros Hr; discriminate.
-    + intros _. right. reflexivity.
+    + intros _. reflexivity.
     + intros _. reflexivity.
     + intros Hr; discriminate.
     + exact Hread.
@@ -304,7 +304,7 @@ Proof.
     + exact Hpipe.
     + exact Hnogap.
     + intros Hr; discriminate.
-    + intros _. right. reflexivity.
+    + intros _. reflexivity.
     + intros _. apply Hunreg. reflexivity.
     + intros Hr; discriminate.
     + exact Hread.
@@ -553,7 +553,7 @@ Qed.
 
 Lemma winv_new l sigma hub S P : winv l sigma hub (new_watcher S P (length hub)).
 Proof.
-  wunf. constructor; wunf; cbn [new_watcher w_base w_sub w_inR w_gap w_reg w_dropped w_delpend w_phase w_S w_P w_catch
+  wunf. constructor; wunf; cbn [new_watcher w_base w_sub w_inR w_gap w_reg w_dropped w_phase w_S w_P w_catch
                                 w_filter w_snap w_gotR w_out w_hold].
   - lia.
   - constructor.
@@ -605,7 +605,7 @@ Lemma ginv_step pa l s lb : 0 < l -> ginv l s -> ginv l (step pa s lb).
 Proof.
   intros Hl G. unfold step. destruct (s_panic s); [exact G|].
   pose proof (ginv_hub_len l s G) as Hlen.
-  destruct lb as [we| | |order|i|i|sr pf|i|i|i|i|i].
+  destruct lb as [we| | |order|i|sr pf|i|i|i|i|i].
   - (* LSeqTake *)
     destruct (s_cur s) eqn:Ecur; [exact G|].
     destruct (_ && _) eqn:Econd; [|exact G].
@@ -645,8 +645,6 @@ Proof.
     constructor; unfold s_cached, s_hub in *; cbn [s_cachedR s_hubR s_cache s_wchan s_pending s_committed s_cur s_ws]; rewrite ?frev_rev_append; try assumption.
     + rewrite H3, Ewc. cbn [concat]. rewrite <- !app_assoc. reflexivity.
     + apply Forall_map. eapply Forall_impl; [|exact H6]. intros w Hw. apply winv_offer; assumption.
-  - (* LHubDelete *)
-    apply ginv_upd_w; [exact G|]. intros w Hw. destruct (w_delpend w); [exact Hw|apply winv_delete; exact Hw].
   - (* LCtxDelete *)
     apply ginv_upd_w; [exact G|]. intros w Hw. destruct (_ && _); [apply winv_delete; exact Hw|exact Hw].
   - (* LWatchSub *)
@@ -707,7 +705,7 @@ Qed.
 (* nothing left to do for the producer, the hub, processEvents and the client, result channel open *)
 Definition settled (s : sys) (w : watcher) : Prop :=
   s_cur s = None /\ s_pending s = [] /\ s_wchan s = [] /\
-  w_phase w = PhRun /\ w_delpend w = 0%nat /\
+  w_phase w = PhRun /\
   c_buf (w_sub w) = [] /\ c_closed (w_sub w) = false /\ w_hold w = None /\
   c_buf (w_out w) = [] /\ c_closed (w_out w) = false.
 
@@ -716,7 +714,7 @@ Theorem complete_settled pa l c0 ls i w :
   settled (run pa ls (init l c0)) w ->
   concat (w_got w) = ideal (w_S w) (w_P w) (w_base w) (s_cached (run pa ls (init l c0))).
 Proof.
-  intros Hl Hn [Hcur [Hpend [Hwc [Hph [Hdp [Hsub [Hopen [Hhold [Hout Hoc]]]]]]]]].
+  intros Hl Hn [Hcur [Hpend [Hwc [Hph [Hsub [Hopen [Hhold [Hout Hoc]]]]]]]].
   pose proof (reachable_inv pa l c0 ls Hl) as G.
   pose proof (winv_of pa l c0 ls i w Hl Hn) as W. set (s := run pa ls (init l c0)) in *.
   assert (Hacc : accepted w = true) by (unfold accepted; rewrite Hph; reflexivity).
@@ -725,7 +723,7 @@ Proof.
   assert (Hreg : w_reg w = true).
   { destruct (w_reg w) eqn:E; [reflexivity|]. rewrite (wi_unreg _ _ _ _ W E) in Hopen. discriminate. }
   assert (Hnd : w_dropped w = false).
-  { destruct (w_dropped w) eqn:E; [|reflexivity]. destruct (wi_drop _ _ _ _ W E) as [H|H]; [lia|congruence]. }
+  { destruct (w_dropped w) eqn:E; [|reflexivity]. pose proof (wi_drop _ _ _ _ W E). congruence. }
   pose proof (wi_live _ _ _ _ W Hreg Hnd) as Hlive.
   assert (Hhub : s_hub s = s_cached s).
   { rewrite (gi_flow _ _ G), Hwc, Hpend. cbn [concat app]. rewrite app_nil_r. reflexivity. }
@@ -753,13 +751,7 @@ Proof.
   intros Hl s. pose proof (reachable_inv pa l c0 ls Hl) as G. split; [apply (gi_flow _ _ G)|apply (gi_sorted _ _ G)].
 Qed.
 
-(* ------------------------------------------------------------------ runs in which the deleter runs before the hub's next item *)
-
-Definition no_deleter_pending (s : sys) : Prop := Forall (fun w => w_delpend w = 0%nat) (s_ws s).
-
-(* before every hub item, every spawned deleter has run *)
-Definition sync_delete_run (pa : params) (ls : list label) (s0 : sys) : Prop :=
-  forall ls1 o ls2, ls = ls1 ++ LHubItem o :: ls2 -> no_deleter_pending (run pa ls1 s0).
+(* ------------------------------------------------------------------ a dropped subscriber is never offered another batch *)
 
 Definition no_gap (s : sys) : Prop := Forall (fun w => w_gap w = false) (s_ws s).
 
@@ -769,7 +761,7 @@ Proof.
   intros w Hw. rewrite Hf. exact Hw.
 Qed.
 
-Lemma gap_delete w dp cd : w_gap (delete_watcher w dp cd) = w_gap w.
+Lemma gap_delete w cd : w_gap (delete_watcher w cd) = w_gap w.
 Proof. unfold delete_watcher. destruct (w_reg w); reflexivity. Qed.
 Lemma gap_read s w : w_gap (watch_read s w) = w_gap w.
 Proof. unfold watch_read. destruct (w_phase w); try reflexivity. destruct (w_S w =? 0); reflexivity. Qed.
@@ -790,23 +782,20 @@ Proof.
   unfold consume_step. destruct (chan_recv (w_out w)) as [[b c]|]; [reflexivity|]. destruct (c_closed (w_out w)); reflexivity.
 Qed.
 
-Lemma gap_step pa l s lb :
-  ginv l s -> (forall o, lb = LHubItem o -> no_deleter_pending s) -> no_gap s -> no_gap (step pa s lb).
+Lemma gap_step pa l s lb : ginv l s -> no_gap s -> no_gap (step pa s lb).
 Proof.
-  intros G Hsync Hg. unfold step. destruct (s_panic s); [exact Hg|].
-  destruct lb as [we| | |order|i|i|sr pf|i|i|i|i|i].
+  intros G Hg. unfold step. destruct (s_panic s); [exact Hg|].
+  destruct lb as [we| | |order|i|sr pf|i|i|i|i|i].
   - destruct (s_cur s); [exact Hg|]. destruct (_ && _); exact Hg.
   - destruct (s_cur s); [|exact Hg]. destruct (ring_add _ _); exact Hg.
   - destruct (s_cur s); [exact Hg|]. destruct (s_pending s); [exact Hg|]. destruct (_ <? _); exact Hg.
   - destruct (s_wchan s) as [|item rest]; [exact Hg|]. destruct (existsb _ _); [exact Hg|].
     unfold no_gap in *. cbn [s_ws]. apply Forall_map.
-    specialize (Hsync order eq_refl). unfold no_deleter_pending in Hsync.
     pose proof (gi_ws _ _ G) as Hw. rewrite Forall_forall in *. intros w Hin.
-    specialize (Hg w Hin). specialize (Hsync w Hin). specialize (Hw w Hin).
+    specialize (Hg w Hin). specialize (Hw w Hin).
     unfold offer. destruct (w_reg w) eqn:Ereg; [|exact Hg]. destruct (_ <? _); [|exact Hg].
     cbn [w_gap]. rewrite Hg. cbn [orb]. destruct (w_dropped w) eqn:Ed; [|reflexivity].
-    destruct (wi_drop _ _ _ _ Hw Ed) as [H|H]; [lia|congruence].
-  - apply gap_upd; [|exact Hg]. intros w. destruct (w_delpend w); [reflexivity|apply gap_delete].
+    pose proof (wi_drop _ _ _ _ Hw Ed). congruence.
   - apply gap_upd; [|exact Hg]. intros w. destruct (_ && _); [apply gap_delete|reflexivity].
   - unfold no_gap, s_set_ws in *. cbn [s_ws]. apply Forall_app. split; [exact Hg|]. constructor; [reflexivity|constructor].
   - apply gap_upd; [|exact Hg]. intros w. apply gap_read.
@@ -820,25 +809,30 @@ Qed.
 Lemma run_snoc pa ls lb s : run pa (ls ++ [lb]) s = step pa (run pa ls s) lb.
 Proof. unfold run. rewrite fold_left_app. reflexivity. Qed.
 
-Theorem sync_delete_no_gap pa l c0 ls :
-  0 < l -> sync_delete_run pa ls (init l c0) -> no_gap (run pa ls (init l c0)).
+Theorem never_accepts_after_drop pa l c0 ls : 0 < l -> no_gap (run pa ls (init l c0)).
 Proof.
-  intros Hl. induction ls as [|lb ls IH] using rev_ind; intros Hs.
+  intros Hl. induction ls as [|lb ls IH] using rev_ind.
   - constructor.
-  - rewrite run_snoc. apply (gap_step pa l).
-    + apply reachable_inv. exact Hl.
-    + intros o ->. apply (Hs ls o []). reflexivity.
-    + apply IH. intros ls1 o ls2 E. apply (Hs ls1 o (ls2 ++ [lb])). rewrite E, <- app_assoc. reflexivity.
+  - rewrite run_snoc. apply (gap_step pa l); [apply reachable_inv; exact Hl|exact IH].
 Qed.
 
-Theorem prefix_except_async_delete pa l c0 ls i w :
-  0 < l -> sync_delete_run pa ls (init l c0) ->
-  nth_error (s_ws (run pa ls (init l c0))) i = Some w -> accepted w = true ->
+(* C05_prefix at full strength: every accepted watcher, every interleaving *)
+Theorem prefix_full pa l c0 ls i w :
+  0 < l -> nth_error (s_ws (run pa ls (init l c0))) i = Some w -> accepted w = true ->
   is_prefix (concat (w_got w)) (ideal (w_S w) (w_P w) (w_base w) (s_cached (run pa ls (init l c0)))).
 Proof.
-  intros Hl Hs Hn Hacc. apply (prefix_nogap pa l c0 ls i w Hl Hn Hacc).
-  pose proof (sync_delete_no_gap pa l c0 ls Hl Hs) as Hg. unfold no_gap in Hg. rewrite Forall_forall in Hg.
+  intros Hl Hn Hacc. apply (prefix_nogap pa l c0 ls i w Hl Hn Hacc).
+  pose proof (never_accepts_after_drop pa l c0 ls Hl) as Hg. unfold no_gap in Hg. rewrite Forall_forall in Hg.
   apply Hg. eapply nth_error_In. exact Hn.
+Qed.
+
+(* a subscriber whose buffer was found full is closed and unregistered in the same hub step *)
+Theorem dropped_is_closed pa l c0 ls i w :
+  0 < l -> nth_error (s_ws (run pa ls (init l c0))) i = Some w -> w_dropped w = true ->
+  w_reg w = false /\ c_closed (w_sub w) = true.
+Proof.
+  intros Hl Hn Hd. pose proof (winv_of pa l c0 ls i w Hl Hn) as W.
+  pose proof (wi_drop _ _ _ _ W Hd) as Hr. split; [exact Hr|apply (wi_unreg _ _ _ _ W Hr)].
 Qed.
 
 (* ------------------------------------------------------------------ decidable prefix, for witnesses *)
